@@ -5,12 +5,16 @@
    decoders, the expression AST, its rendering and its encoders); proofs: Col26_proofs.v,
    Ptg_proofs.v, FormulaPos_proofs.v (on top of Range_proofs.from_sparse_spec); tables:
    CalamineGen.Tables (regenerated from src/utils.rs on every run) against FtabRef.v (frozen).
-   Not covered here (see notes/C14.md): the xlsx/ods conjunct "the stored text is returned
-   unchanged" (event-level identity, no model yet) and the record-level decoding of the cell
-   position (row/column fields of the FORMULA / BrtFmla records: properties C02 / C03). *)
+   FormulaEnv.v (round 3): where the decoders' environment comes from — the BrtName / BrtExternSheet
+   records of workbook.bin, the Lbl / ExternSheet records of the xls globals — and the formula range
+   of the stored-text readers; proofs: FormulaEnv_proofs.v.
+   Not covered here (see notes/C14.md): the XML event level of the xlsx/ods conjunct "the stored
+   text is returned unchanged" (checked end to end on generated files, no Coq model) and the
+   record-level decoding of the cell position (row/column fields of the FORMULA / BrtFmla records:
+   properties C02 / C03; also checked end to end). *)
 From Coq Require Import String.
 From Calamine Require Import Prelude Range Range_spec Col26 Col26_proofs FtabRef FtabMatch Ptg Ptg_proofs
-  FormulaPos_proofs.
+  FormulaPos_proofs FormulaEnv FormulaEnv_proofs Ptg_total FormulaEnv_total.
 From CalamineGen Require Tables.
 Open Scope N_scope.
 
@@ -39,9 +43,23 @@ Theorem C14_a1_roundtrip : forall r c, r + 1 < ROW_TEXT_LIMIT -> c < 16384 ->
   exists s, coordinate_to_name (r, c) = Ok s /\ get_row_column s = Ok (r, c).
 Proof. exact a1_roundtrip. Qed.
 
-Theorem C14_row_text_overflow : forall r c, ROW_TEXT_LIMIT <= r + 1 ->
-  get_row_column (a1_name r c) = Panic.
-Proof. exact get_row_column_row_text_overflow. Qed.
+(* since the C06 hardening (u64 saturating accumulation, u32::try_from at the end) no text makes the
+   A1 scanner or get_dimension panic; the former 10-digit overflow (C14_row_text_overflow) is gone *)
+Theorem C14_no_panic_a1 : forall range,
+  (get_row_and_optional_column range <> Panic /\ get_row_and_optional_column range <> OutOfFuel) /\
+  (get_row_column range <> Panic /\ get_row_column range <> OutOfFuel) /\
+  (get_row range <> Panic /\ get_row range <> OutOfFuel) /\
+  (get_dimension range <> Panic /\ get_dimension range <> OutOfFuel).
+Proof.
+  intros range. repeat split;
+    first [ apply get_row_and_optional_column_total | apply get_row_column_total
+          | apply get_row_total | apply get_dimension_total ].
+Qed.
+
+Theorem C14_reversed_dimension_ok : forall r0 c0 r1 c1,
+  r0 + 1 < ROW_TEXT_LIMIT -> r1 + 1 < ROW_TEXT_LIMIT -> c0 < COL_TEXT_LIMIT -> c1 < COL_TEXT_LIMIT ->
+  get_dimension (a1_name r0 c0 ++ [ch_colon] ++ a1_name r1 c1) = Ok ((r0, c0), (r1, c1)).
+Proof. exact get_dimension_reversed_ok. Qed.
 
 Theorem C14_lower_case_agrees : forall range,
   get_row_and_optional_column (map to_lower range) = get_row_and_optional_column range.
@@ -75,6 +93,27 @@ Example C14_former_known_witnesses_nonvacuous :
   xlsb_parse_formula (fun _ => []) benv (encode_xlsb (EStr false [65279; 128512])) = Ok [34; 65279; 128512; 34].
 Proof. exact former_known_witnesses. Qed.
 
+(* ---------------------------------------------------------------- totality (C06 hardening) *)
+(* no byte string whatsoever makes the two token decoders panic: every operand read is covered by
+   the `expected` pre-check, every String::insert / split_off / fargs[w0..w1] / `*s -= start` site is
+   safe because the operand stack is a non-increasing list of offsets <= the buffer length
+   (Ptg_total.inv); names, sheets and f64 printing are arbitrary *)
+Theorem C14_no_panic_parse_formula_xls : forall show_f64 env data,
+  xls_parse_formula show_f64 env data <> Panic.
+Proof. exact no_panic_parse_formula_xls. Qed.
+
+Theorem C14_no_panic_parse_formula_xlsb : forall show_f64 env rgce,
+  xlsb_parse_formula show_f64 env rgce <> Panic.
+Proof. exact no_panic_parse_formula_xlsb. Qed.
+
+(* … nor do the loops that build their environment, on any record list *)
+Theorem C14_no_panic_xlsb_read_names : forall show_f64 sheets recs,
+  xlsb_read_names show_f64 sheets recs <> Panic.
+Proof. exact no_panic_xlsb_read_names. Qed.
+
+Theorem C14_no_panic_xls_read_names : forall sheets recs, xls_read_names sheets recs <> Panic.
+Proof. exact no_panic_xls_read_names. Qed.
+
 (* ---------------------------------------------------------------- positions *)
 Theorem C14_formula_positions : forall (formulas : list (pos * list N)),
   pre empty (OFromSparse formulas) -> NoDup (map fst formulas) ->
@@ -83,6 +122,143 @@ Theorem C14_formula_positions : forall (formulas : list (pos * list N)),
     (forall q, in_rect r q = true -> ~ In q (map fst formulas) -> get_value r q = Some []) /\
     (forall q, in_rect r q = false -> get_value r q = None).
 Proof. exact formula_positions. Qed.
+
+
+(* ---------------------------------------------------------------- the decoders' environment *)
+(* xlsb: the loop over the records that follow BrtEndBundleShs, run on ANY list of BrtName records
+   (hidden, built-in, function, macro … — [wf_name_rec] bounds field widths only) yields one
+   (name, formula) entry per record, in record order *)
+Theorem C14_xlsb_names_of_records : forall show_f64 sheets ds e p st,
+  forallb wf_name_rec ds = true -> is_end_rec e = true ->
+  xlsb_names_loop show_f64 sheets (map (fun d => (0x0027, enc_brtname d)) ds ++ [(e, p)]) st
+  = do r <- spec_names_xlsb show_f64 (ws_ext st) (ws_names st) ds; Ok (ws_ext st, r).
+Proof. exact xlsb_names_of_records. Qed.
+
+Theorem C14_xlsb_read_names_spec : forall show_f64 sheets xtis ds e p,
+  forallb wf_xti xtis = true -> N.of_nat (length xtis) < 4294967296 ->
+  forallb wf_name_rec ds = true -> is_end_rec e = true ->
+  xlsb_read_names show_f64 sheets
+    ((0x016A, enc_externsheet xtis) :: map (fun d => (0x0027, enc_brtname d)) ds ++ [(e, p)])
+  = do r <- spec_names_xlsb show_f64 (spec_extern_xlsb sheets xtis) [] ds;
+    Ok (spec_extern_xlsb sheets xtis, r).
+Proof. exact xlsb_read_names_spec. Qed.
+
+(* the reported list is the record list, in order (the code filters nothing; the property's
+   "defined names" are read as: every name record of the file) *)
+Theorem C14_defined_names_in_order : forall show_f64 ext ds r,
+  spec_names_xlsb show_f64 ext [] ds = Ok r -> map fst r = map nr_name ds.
+Proof. exact defined_names_in_order_xlsb. Qed.
+
+Theorem C14_defined_names_in_order_xls : forall sheets gs names xtis, forallb wf_grec gs = true ->
+  xls_read_names sheets (map enc_grec gs) = Ok (names, xtis) ->
+  map fst names = map lb_name (lbls_of gs) /\ xtis = xtis_of gs.
+Proof. exact defined_names_in_order_xls. Qed.
+
+(* the name used for PtgName index i+1 is the i-th record's name, whatever flags the records carry;
+   stated on the table and on the decoder itself *)
+Theorem C14_name_index_stable : forall show_f64 ext ds r i d,
+  spec_names_xlsb show_f64 ext [] ds = Ok r -> nth_error ds i = Some d ->
+  spec_name (map fst r) (N.of_nat i + 1) = nr_name d.
+Proof. exact name_index_stable_xlsb. Qed.
+
+Theorem C14_name_index_stable_xls : forall sheets gs names xtis i d, forallb wf_grec gs = true ->
+  xls_read_names sheets (map enc_grec gs) = Ok (names, xtis) ->
+  nth_error (lbls_of gs) i = Some d ->
+  spec_name (map fst names) (N.of_nat i + 1) = lb_name d.
+Proof. exact name_index_stable_xls. Qed.
+
+Theorem C14_ptgname_is_ith_record_xlsb : forall show_f64 ext ds r i d k,
+  spec_names_xlsb show_f64 ext [] ds = Ok r -> nth_error ds i = Some d ->
+  N.of_nat i + 1 < 4294967296 ->
+  xlsb_parse_formula show_f64 {| be_sheets := ext; be_names := map fst r |}
+    (encode_xlsb (EName k (N.of_nat i + 1))) = Ok (nr_name d).
+Proof. exact ptgname_is_ith_record_xlsb. Qed.
+
+Theorem C14_ptgname_is_ith_record_xls : forall show_f64 sheets gs names xtis i d k,
+  forallb wf_grec gs = true ->
+  xls_read_names sheets (map enc_grec gs) = Ok (names, xtis) ->
+  nth_error (lbls_of gs) i = Some d -> N.of_nat i + 1 < 4294967296 ->
+  xls_parse_formula show_f64 {| xe_sheets := sheets; xe_names := map fst names; xe_xtis := xtis |}
+    (frame_xls (encode_xls (EName k (N.of_nat i + 1)))) = Ok (lb_name d).
+Proof. exact ptgname_is_ith_record_xls. Qed.
+
+(* 3-D references go through the XTI table: entry i names the sheet its firstSheet field points to *)
+Theorem C14_sheet3d_through_xti_xlsb : forall sheets xtis i x nm,
+  nth_error xtis i = Some x ->
+  spec_sheet_xlsb {| be_sheets := spec_extern_xlsb sheets xtis; be_names := nm |} (N.of_nat i)
+  = resolve_xti sheets (snd (fst x)).
+Proof. exact sheet3d_through_xti_xlsb. Qed.
+
+Theorem C14_sheet3d_through_xti_xls : forall sheets gs names xtis i x nm, forallb wf_grec gs = true ->
+  xls_read_names sheets (map enc_grec gs) = Ok (names, xtis) ->
+  nth_error (xtis_of gs) i = Some x -> snd (fst x) < 32768 ->
+  spec_sheet_xls {| xe_sheets := sheets; xe_names := nm; xe_xtis := xtis |} (N.of_nat i)
+  = match nthN sheets (snd (fst x)) with Some s => s | None => lit "#REF" end.
+Proof. exact sheet3d_through_xti_xls. Qed.
+
+(* xls defined-name formulas: outside the known class (one 3-D reference token, any flags since
+   commit 2c35987) the text is the A1 rendering; inside it the code deviates (witness) *)
+Theorem C14_xls_name_ref3d : forall sheets xtis k ixti a,
+  ixti < 65536 -> wf_cref 65536 a = true ->
+  let e := ERef3d k ixti a in
+  let env := {| xe_sheets := sheets; xe_names := []; xe_xtis := xtis |} in
+  known_xls_name (encode_xls e) = None /\
+  omap (xls_name_text sheets xtis) (parse_defined_names (encode_xls e)) = Ok (render_xls (fun _ => []) env e).
+Proof. exact xls_name_ref3d. Qed.
+
+Theorem C14_refuted_xls_name_formula :
+  let env := {| xe_sheets := [lit "S"]; xe_names := []; xe_xtis := [(0, 0, 0)] |} in
+  let e1 := ERef3d CRef 0 {| cr_row := 1; cr_col := 1; cr_row_rel := false; cr_col_rel := true |} in
+  let e2 := EInt 7 in
+  known_xls_name (encode_xls e1) = None /\
+  omap (xls_name_text [lit "S"] [(0, 0, 0)]) (parse_defined_names (encode_xls e1)) = Ok (lit "S!B$2") /\
+  wf_xls env e2 = true /\ known_xls_name (encode_xls e2) = Some 1 /\
+  render_xls (fun _ => []) env e2 = lit "7" /\
+  omap (xls_name_text [lit "S"] [(0, 0, 0)]) (parse_defined_names (encode_xls e2)) = Ok (lit "Unsupported ptg: 1e").
+Proof. exact refuted_xls_name_formula. Qed.
+
+(* shared / array formula members (PtgExp): both decoders answer "" whatever the shared formula is *)
+Theorem C14_refuted_ptgexp : forall show_f64 xenv benv r c, r < 65536 -> c < 65536 ->
+  xls_parse_formula show_f64 xenv (frame_xls (0x01 :: le 2 r ++ le 2 c)) = Ok [] /\
+  xlsb_parse_formula show_f64 benv (0x01 :: le 4 r) = Ok [].
+Proof. exact refuted_ptgexp. Qed.
+
+(* stored-text readers: non-empty texts at their positions, "" elsewhere in their tight box *)
+Theorem C14_stored_text_positions : forall (cells : list (pos * list N)),
+  pre empty (OFromSparse (filter nonempty_cell cells)) -> NoDup (map fst cells) ->
+  exists r, formula_range false cells = Ok r /\
+    rect r = tight_bbox (map fst (filter nonempty_cell cells)) /\
+    (forall p t, In (p, t) cells -> t <> [] -> get_value r p = Some t) /\
+    (forall q, in_rect r q = true -> (forall t, In (q, t) cells -> t = []) -> get_value r q = Some []) /\
+    (forall q, in_rect r q = false -> get_value r q = None).
+Proof. exact stored_text_positions. Qed.
+
+Example C14_xlsb_names_nonvacuous :
+  forallb wf_name_rec ex_names = true /\ forallb wf_xti [(0, 1, 1); (0, 4294967294, 4294967294)] = true /\
+  xlsb_read_names (fun _ => []) [lit "S1"; lit "S2"]
+    ((0x0165, []) :: (0x016A, enc_externsheet [(0, 1, 1); (0, 4294967294, 4294967294)])
+       :: map (fun d => (0x0027, enc_brtname d)) ex_names ++ [(0x009D, [])])
+  = Ok ([lit "S2"; lit "#ThisWorkbook"],
+        [(lit "_xlnm._FilterDatabase", lit "S2!$A$1:$C$10"); (lit "Rate", lit "5"); ([26085; 128512], lit "Rate*2")]).
+Proof. exact xlsb_names_nonvacuous. Qed.
+
+Example C14_xls_names_nonvacuous :
+  forallb wf_grec ex_globals = true /\
+  xls_read_names [lit "S1"; lit "S2"] (map enc_grec ex_globals)
+  = Ok ([([13], lit "S2!$A$1:$C$10"); ([26085; 128512], lit "S1!$AB$5")], [(0, 1, 1); (0, 0, 0)]).
+Proof. exact xls_names_nonvacuous. Qed.
+
+Example C14_stored_text_positions_nonvacuous :
+  let cs := [((1, 2), [65; 49]); ((1, 3), []); ((1, 5), [66; 50]); ((9, 0), [])] in
+  pre (@empty (list N)) (OFromSparse (filter nonempty_cell cs)) /\ NoDup (map fst cs) /\
+  exists r, formula_range false cs = Ok r /\ get_value r (1, 5) = Some [66; 50] /\
+            get_value r (1, 3) = Some [] /\ get_value r (9, 0) = None.
+Proof.
+  cbv zeta. split; [|split].
+  - cbn. unfold U32MAX. repeat split; try lia; destruct H as [<-|[<-|[]]]; cbn; lia.
+  - cbn. repeat constructor; cbn; intuition congruence.
+  - eexists. split; [vm_compute; reflexivity|]. vm_compute. repeat split.
+Qed.
 
 (* ---------------------------------------------------------------- non-vacuity *)
 Example C14_rpn_nonvacuous :
@@ -126,15 +302,51 @@ Check C14_formula_positions : forall (formulas : list (pos * list N)),
     (forall q, in_rect r q = true -> ~ In q (map fst formulas) -> get_value r q = Some []) /\
     (forall q, in_rect r q = false -> get_value r q = None).
 
+Check C14_no_panic_parse_formula_xls : forall show_f64 env data,
+  xls_parse_formula show_f64 env data <> Panic.
+Check C14_no_panic_parse_formula_xlsb : forall show_f64 env rgce,
+  xlsb_parse_formula show_f64 env rgce <> Panic.
+Check C14_name_index_stable : forall show_f64 ext ds r i d,
+  spec_names_xlsb show_f64 ext [] ds = Ok r -> nth_error ds i = Some d ->
+  spec_name (map fst r) (N.of_nat i + 1) = nr_name d.
+Check C14_defined_names_in_order : forall show_f64 ext ds r,
+  spec_names_xlsb show_f64 ext [] ds = Ok r -> map fst r = map nr_name ds.
+Check C14_xlsb_read_names_spec : forall show_f64 sheets xtis ds e p,
+  forallb wf_xti xtis = true -> N.of_nat (length xtis) < 4294967296 ->
+  forallb wf_name_rec ds = true -> is_end_rec e = true ->
+  xlsb_read_names show_f64 sheets
+    ((0x016A, enc_externsheet xtis) :: map (fun d => (0x0027, enc_brtname d)) ds ++ [(e, p)])
+  = do r <- spec_names_xlsb show_f64 (spec_extern_xlsb sheets xtis) [] ds;
+    Ok (spec_extern_xlsb sheets xtis, r).
+
 Print Assumptions C14_letters_injective.
 Print Assumptions C14_letters_inverse.
 Print Assumptions C14_push_column_is_letters.
 Print Assumptions C14_push_cell_ref_spec.
 Print Assumptions C14_column_number_to_name_is_letters.
 Print Assumptions C14_a1_roundtrip.
-Print Assumptions C14_row_text_overflow.
+Print Assumptions C14_no_panic_a1.
+Print Assumptions C14_no_panic_parse_formula_xls.
+Print Assumptions C14_no_panic_parse_formula_xlsb.
+Print Assumptions C14_no_panic_xlsb_read_names.
+Print Assumptions C14_no_panic_xls_read_names.
+Print Assumptions C14_reversed_dimension_ok.
 Print Assumptions C14_lower_case_agrees.
 Print Assumptions C14_tables_match_reference.
 Print Assumptions C14_rpn_correct_xls.
 Print Assumptions C14_rpn_correct_xlsb.
 Print Assumptions C14_formula_positions.
+Print Assumptions C14_xlsb_names_of_records.
+Print Assumptions C14_xlsb_read_names_spec.
+Print Assumptions C14_defined_names_in_order.
+Print Assumptions C14_defined_names_in_order_xls.
+Print Assumptions C14_name_index_stable.
+Print Assumptions C14_name_index_stable_xls.
+Print Assumptions C14_ptgname_is_ith_record_xlsb.
+Print Assumptions C14_ptgname_is_ith_record_xls.
+Print Assumptions C14_sheet3d_through_xti_xlsb.
+Print Assumptions C14_sheet3d_through_xti_xls.
+Print Assumptions C14_xls_name_ref3d.
+Print Assumptions C14_refuted_xls_name_formula.
+Print Assumptions C14_refuted_ptgexp.
+Print Assumptions C14_stored_text_positions.
